@@ -121,9 +121,8 @@ func buildCover(eng *Engine, solver string, fv *funcVC) string {
 		case itAssume:
 			sb.WriteString("(assert " + it.Text + ")\n")
 		case itOblig:
-			if it.Ob.Known == "" {
-				sb.WriteString("(assert " + imp(it.Ob.Guard, it.Ob.Formula) + ")\n")
-			}
+			// obligations are NOT assumed here: an obligation that fails on every path is a defect
+			// to be reported, not a contradiction in the contracts
 		}
 	}
 	sb.WriteString("(assert " + or(fv.RetReach...) + ")\n(check-sat)\n")
